@@ -45,6 +45,16 @@ pub trait Hook {
   fn teardown(&self, addr: usize, len: usize);
   /// The non-atomic write announced by `plain_write` has been performed.
   fn plain_written(&self, _addr: usize, _len: usize) {}
+  /// The value an atomic load returns: `latest` is what memory holds. An explorer of non-sequentially-consistent
+  /// executions may answer with an older value of the same location that the memory model still allows.
+  fn load_value(&self, _ev: &Event, latest: u64) -> u64 {
+    latest
+  }
+  /// Whether this `compare_exchange_weak`, which would succeed, fails spuriously instead (it is then not
+  /// performed; the current value is returned as the error). Asked after `before`.
+  fn weak_cas_fails(&self, _ev: &Event) -> bool {
+    false
+  }
 }
 
 thread_local! {
@@ -100,7 +110,7 @@ macro_rules! atomic_int {
         if let Some(h) = hook() {
           let e = self.ev(Kind::Load, o, o);
           h.before(&e);
-          let v = self.0.load(o);
+          let v = h.load_value(&e, self.0.load(o) as u64) as $prim;
           h.after(&e, v as u64, v as u64, true);
           v
         } else {
@@ -145,7 +155,8 @@ macro_rules! atomic_int {
         }
       }
 
-      /// Executed as the strong form while a hook is installed (deterministic).
+      /// Executed as the strong form while a hook is installed (deterministic), unless the hook decides
+      /// that it fails spuriously.
       #[track_caller]
       #[inline]
       pub fn compare_exchange_weak(
@@ -155,8 +166,20 @@ macro_rules! atomic_int {
         s: Ordering,
         f: Ordering,
       ) -> Result<$prim, $prim> {
-        if hook().is_some() {
-          self.compare_exchange(c, n, s, f)
+        if let Some(h) = hook() {
+          let e = self.ev(Kind::Cas, s, f);
+          h.before(&e);
+          if self.0.load(Ordering::Relaxed) == c && h.weak_cas_fails(&e) {
+            let o = self.0.load(f);
+            h.after(&e, o as u64, o as u64, false);
+            return Err(o);
+          }
+          let r = self.0.compare_exchange(c, n, s, f);
+          match r {
+            Ok(o) => h.after(&e, o as u64, n as u64, true),
+            Err(o) => h.after(&e, o as u64, o as u64, false),
+          };
+          r
         } else {
           self.0.compare_exchange_weak(c, n, s, f)
         }
